@@ -19,7 +19,15 @@ import (
 
 type Rng struct{ s uint64 }
 
-func NewRng(seed uint64) *Rng { return &Rng{s: seed*0x9E3779B97F4A7C15 + 0x1234567} }
+// NewRng derives the initial state from the seed through the output mixer, so that the streams
+// of consecutive seeds are unrelated (a plain seed*G+C state would make seed k+1 the stream of
+// seed k shifted by one step).
+func NewRng(seed uint64) *Rng {
+	r := &Rng{s: seed*0x9E3779B97F4A7C15 + 0x1234567}
+	a := r.Next()
+	b := r.Next()
+	return &Rng{s: a ^ (b << 1) ^ (seed * 0xD6E8FEB86659FD93)}
+}
 
 func (r *Rng) Next() uint64 {
 	r.s += 0x9E3779B97F4A7C15
